@@ -110,3 +110,23 @@ Section Drivers.
     | None => None
     end.
 End Drivers.
+
+(* ---- fields with several inputs (MULTIPLY, MPLEX, WINDOW, INDIR, LINCOM ...; scalar references count as inputs) ---- *)
+Record dbm := mkDbm { m_frags : list cfg; m_fields : list field; m_derived : list (nat * list nat) }.
+
+Definition ren (i j x : nat) : nat := if x =? i then j else x.
+
+(* gd_rename with GD_REN_DATA | GD_REN_UPDB (_GD_UpdateInputs): the field and EVERY input position that names it *)
+Definition rename_fieldm (i j : nat) (d : dbm) : dbm :=
+  mkDbm (m_frags d)
+        (map (fun f => if fid f =? i then mkField j (ffrag f) (fty f) (fspf f) (fvals f) else f) (m_fields d))
+        (map (fun p => (ren i j (fst p), map (ren i j) (snd p))) (m_derived d)).
+
+Definition find_fieldm (d : dbm) (i : nat) : option field := find (fun f => fid f =? i) (m_fields d).
+
+(* the RAW field that input position q of the derived field n resolves to *)
+Definition input_field (d : dbm) (n q : nat) : option field :=
+  match find (fun p => fst p =? n) (m_derived d) with
+  | Some p => match nth_error (snd p) q with Some x => find_fieldm d x | None => None end
+  | None => None
+  end.
